@@ -136,6 +136,8 @@ pub struct CombRec {
     /// home property of the family semantics (C04 ..)
     pub home: u8,
     pub items_out: u32,
+    /// origin (child id) of every item yielded so far (merge fairness, C17)
+    pub yields: Vec<u32>,
 }
 
 pub struct ChildRec {
@@ -396,6 +398,7 @@ impl World {
             fired_slot: Vec::new(),
             home,
             items_out: 0,
+            yields: Vec::new(),
         });
         (self.combs.len() - 1) as u16
     }
@@ -592,6 +595,17 @@ impl World {
             // C16: a child whose previous answer was Pending is re-polled only after a wake-up for its slot
             if selective && last == Ans::Pending && !fired {
                 self.violate(16, || format!("{:?}#{}: child at slot {} re-polled although no waker handed out for that slot was invoked since its last poll", fam, owner, slot));
+            }
+            // C10: an input of a chain is not polled before every earlier input has ended
+            if fam == Fam::Chain && slot > 0 {
+                let prev_done = self.combs[owner as usize]
+                    .children
+                    .iter()
+                    .filter(|&&c| self.children[c as usize].slot < slot)
+                    .all(|&c| self.children[c as usize].finished && self.children[c as usize].last == Ans::End);
+                if !prev_done {
+                    self.violate(10, || format!("Chain#{}: input {} polled before every earlier input returned None", owner, slot));
+                }
             }
             if buffered != 0 && fam == Fam::Zip {
                 self.violate(9, || format!("Zip#{}: input {} polled while its item for the current row is still buffered", owner, slot));
